@@ -205,6 +205,48 @@ func (d *Decl) usedParams() []string {
 	return out
 }
 
+// needsInstance: an occurrence of type parameter p in t for which an instance of tc is summoned
+// (monoid.MergeSlice/MergeSeq/MergeGoMap need no instance for their elements, eq.GoMap none for the key).
+func needsInstance(tc TC, t *TX, p string) bool {
+	switch t.K {
+	case KParam:
+		return t.Param == p
+	case KBytes:
+		return false
+	case KSlice, KSeq:
+		if tc == Monoid {
+			return false
+		}
+	case KMap:
+		switch tc {
+		case Monoid:
+			return false
+		case Eq:
+			return needsInstance(tc, t.El[1], p)
+		}
+	}
+	for _, e := range t.El {
+		if needsInstance(tc, e, p) {
+			return true
+		}
+	}
+	return false
+}
+
+// usedParamsFor: the type parameters for which the instance function of tc takes an instance.
+func (d *Decl) usedParamsFor(tc TC) []string {
+	var out []string
+	for _, p := range d.Params {
+		for _, f := range d.Fields {
+			if needsInstance(tc, f.T, p) {
+				out = append(out, p)
+				break
+			}
+		}
+	}
+	return out
+}
+
 func (d *Decl) derivable() bool {
 	if !d.IsStruct {
 		return true
@@ -323,13 +365,28 @@ func (p *Pkg) findOverride(tc TC, target string) *Override {
 	return nil
 }
 
+// findDerive prefers a directive over an implicit (recursive=true) derivation.
 func (p *Pkg) findDerive(tc TC, d *Decl) *Derive {
+	var imp *Derive
 	for _, x := range p.Derives {
 		if x.TC == tc && x.Decl == d {
-			return x
+			if !x.Implicit {
+				return x
+			}
+			imp = x
 		}
 	}
-	return nil
+	return imp
+}
+
+// hasOrdTick: the package declares Ord instances of basic types (they count component comparisons).
+func (p *Pkg) hasOrdTick() bool {
+	for _, o := range p.Overrides {
+		if o.TC == Ord && strings.HasPrefix(o.Target, "basic:") {
+			return true
+		}
+	}
+	return false
 }
 
 func namedTarget(d *Decl) string { return "named:" + d.Pkg.Name + "." + d.Name }
@@ -525,8 +582,8 @@ func defaultApplies(tc TC, d *Decl, rec bool) bool {
 		if under != "" && isNumeric(under) {
 			return true
 		}
-		if d.IsStruct && d.Value && !rec {
-			return true // fmt.Stringer: show.Given
+		if d.IsStruct && d.Value {
+			return true // @fp.Value types are fmt.Stringers: show.Given[T fmt.Stringer]
 		}
 		return false
 	}
@@ -552,7 +609,10 @@ func resolveNamed(tc TC, ctx *Pkg, d *Decl, rec bool) resolution {
 	if defaultApplies(tc, d, rec) {
 		return resolution{mode: mDefault}
 	}
-	if x := ctx.findDerive(tc, d); x != nil && x.Implicit {
+	// an instance generated on demand by another recursive=true derivation is only relied upon by
+	// recursive=true derivations (a plain directive that needs it gets its own directive: gombok
+	// does not reliably see on-demand instances from plain derivations)
+	if x := ctx.findDerive(tc, d); x != nil && x.Implicit && rec {
 		return resolution{mode: mRecDerived, ctx: ctx, rec: true}
 	}
 	return resolution{mode: mNone}
